@@ -59,11 +59,22 @@ def run(tier, seed):
             radius[i] = float(rr)
             shear[i] = cx(mu)
             bulk[i] = cx(kb)
-        keep = [a.copy() for a in (Y, radius, shear, bulk)]
+        Y0, radius0, shear0, bulk0 = Y, radius, shear, bulk
         lon, col, tim = np.array([0.3]), np.array([theta]), np.array([0.0])
-        for tag, fn in (("jit", calculate_strain_stress), ("py_func", pyf(calculate_strain_stress) if gi % 8 == 0 else None)):
+        # the identities are homogeneous: moduli, y2, y4 (and with them the stresses) scale by s, lengths r, y1, y3 by rho, the strains by
+        # nothing.  Exact powers of two carry the lattice to planetary magnitudes (GPa .. beyond 1e18 Pa, metres .. 1e6 m) without rounding.
+        variants = [("jit", calculate_strain_stress, 1.0, 1.0), ("py_func", pyf(calculate_strain_stress) if gi % 8 == 0 else None, 1.0, 1.0),
+                    ("jit", calculate_strain_stress) + [(2.0 ** 37, 2.0 ** 20), (2.0 ** 54, 1.0), (2.0 ** 63, 2.0 ** 22), (2.0 ** -30, 2.0 ** -10)][gi % 4]]
+        for tag, fn, mscale, lscale in variants:
             if fn is None:
                 continue
+            Y = Y0.copy()
+            Y[0] *= lscale
+            Y[2] *= lscale
+            Y[1] *= mscale
+            Y[3] *= mscale
+            radius, shear, bulk = radius0 * lscale, shear0 * mscale, bulk0 * mscale
+            keep = [a.copy() for a in (Y, radius, shear, bulk)]
             # the forcing frequency of the mode is an argument the identities do not depend on: positive, tiny, zero (static tide) and
             # negative (retrograde mode) values rotate through the lattice groups
             freq = [1.0e-5, 1.0e-12, 0.0, -1.0e-5, 3.0e-5][gi % 5]
@@ -71,16 +82,16 @@ def run(tier, seed):
                 strains, stresses = fn(mk(U), mk(Uth), mk(Uph), mk(Uthth), mk(Uphph), mk(Uthph), Y, lon, col, tim, radius, shear, bulk, freq, l)
             if not all(np.array_equal(a, b) for a, b in zip((Y, radius, shear, bulk), keep)):
                 ck.violation({"clause": "inputs_unmodified", "fn": "calculate_strain_stress"}, "calculate_strain_stress[%s] modified its input arrays" % tag, {})
-            heat_r = calculate_volumetric_heating(stresses, strains)
+            heat_r = calculate_volumetric_heating(stresses, strains) / mscale
             for i, row in enumerate(grp):
                 nrows += 1
                 es = np.array([cx(z) for z in row[8]])
                 ss = np.array([cx(z) for z in row[9]])
                 eh = float(fr(row[10]))
-                got_e, got_s = strains[:, i, 0, 0, 0], stresses[:, i, 0, 0, 0]
-                det = {"impl": tag, "l": l, "sin,cos": [str(fr(th[0])), str(fr(th[1]))], "y": [str(cx(z)) for z in row[1]], "mu": str(cx(row[2])),
+                got_e, got_s = strains[:, i, 0, 0, 0], stresses[:, i, 0, 0, 0] / mscale
+                det = {"impl": tag, "moduli_scaled_by": mscale, "lengths_scaled_by": lscale, "l": l, "sin,cos": [str(fr(th[0])), str(fr(th[1]))], "y": [str(cx(z)) for z in row[1]], "mu": str(cx(row[2])),
                        "K": str(cx(row[3])), "r": row[4], "U,Uth,Uph,Uthth,Uphph,Uthph": [str(cx(z)) for z in us], "frequency": freq}
-                ck.case(("pt", tag, gi, i), True)
+                ck.case(("pt", tag, gi, i, mscale, lscale), True)
                 names = ["rr", "thth", "phph", "rth", "rph", "thph"]
                 sc_e = max(np.max(np.abs(es)), 1e-300)
                 sc_s = max(np.max(np.abs(ss)), 1e-300)
@@ -104,7 +115,32 @@ def run(tier, seed):
                 worst["heat"] = max(worst["heat"], abs(hr - abs(eh)) / hs)
                 if not (hr >= 0.0) or abs(hr - abs(eh)) > 1e-12 * hs or np.iscomplexobj(heat_r):
                     ck.violation({"clause": "heating", "elastic": eh == 0}, "volumetric heating = %r, definition gives %r at %s" % (hr, abs(eh), det), det)
+        # call sequences over colatitude GRIDS: same number of points and the same end points, different interior point; every column
+        # of a batched call must equal the single-colatitude call at that angle (whatever was evaluated before)
+        if gi % 4 == 0:
+            Y, radius, shear, bulk = Y0, radius0, shear0, bulk0
+            mk3 = lambda z: np.full((1, 3, 1), z, dtype=np.complex128)
+            single = {}
+            for thx in (0.3, theta, 0.5 * (theta + 0.3) + 0.7, 2.8):
+                e1, s1 = calculate_strain_stress(mk(U), mk(Uth), mk(Uph), mk(Uthth), mk(Uphph), mk(Uthph), Y, lon, np.array([thx]), tim, radius, shear, bulk, 1.0e-5, l)
+                single[thx] = (e1[:, :, 0, 0, 0].copy(), s1[:, :, 0, 0, 0].copy())
+            grid = np.array([0.3, 0.5 * (theta + 0.3) + 0.7, 2.8])
+            for rep, mid in enumerate((0.5 * (theta + 0.3) + 0.7, theta, 0.5 * (theta + 0.3) + 0.7)):
+                if rep == 1:
+                    grid[1] = mid                      # the caller's grid array changed in place
+                else:
+                    grid = np.array([0.3, mid, 2.8])
+                e3, s3 = calculate_strain_stress(mk3(U), mk3(Uth), mk3(Uph), mk3(Uthth), mk3(Uphph), mk3(Uthph), Y, lon, grid, tim, radius, shear, bulk, 1.0e-5, l)
+                for j, thx in enumerate((0.3, mid, 2.8)):
+                    ck.case(("grid_sequence", gi, rep, j), True)
+                    for nm, got, exp in (("strain", e3[:, :, 0, j, 0], single[thx][0]), ("stress", s3[:, :, 0, j, 0], single[thx][1])):
+                        sc = max(float(np.max(np.abs(exp))), 1e-300)
+                        if not np.all(np.abs(got - exp) <= 1e-12 * sc):
+                            ck.violation({"clause": "grid_sequence", "what": nm},
+                                         "%s at colatitude %.6f (column %d of the grid %s, call %d of a sequence of grids with equal size and end points) differs from the single-colatitude call by %.3g (relative)" % (
+                                             nm, thx, j, [round(float(x), 6) for x in grid], rep + 1, float(np.max(np.abs(got - exp))) / sc), {"l": l, "grid": [float(x) for x in grid], "rep": rep})
         # displacements on the same lattice
+        Y = Y0
         rad, pol, azi = calculate_displacements(mk(U), mk(Uth), mk(Uph), Y, theta)
         for i, row in enumerate(grp):
             y1c, y3c = cx(row[1][0]), cx(row[1][2])
@@ -127,7 +163,7 @@ def run(tier, seed):
     ck.notes["negative_control"] = "a 2e-12 relative perturbation exceeds the 1e-12 comparison tolerance"
     ck.cov["rule"] = "one case = one exported lattice point (y1..y4, mu, K, r, l, theta, potential sample) through one implementation (jitted batched / undecorated)"
     ck.assumptions += ["theta = atan2(sin, cos) of the rational pair: the code's own sin/cos/tan of that angle are within 1e-16 of the rationals",
-                       "tolerance 1e-12 relative to the largest tensor component"]
+                       "tolerance 1e-12 relative to the largest tensor component", "scaled variants use exact powers of two (moduli up to 2^63 Pa-units, lengths up to 2^22): the expected tensors are the lattice values times the scale"]
     return ck.finish()
 
 
